@@ -238,7 +238,7 @@ impl World {
 
     fn wire_tag(&self, conn: usize, p: &rf::Packet) -> Option<u64> {
         match p {
-            rf::Packet::Publish(p) => payload_tag(&p.payload),
+            rf::Packet::Publish(p) => payload_tag(&p.payload).or_else(|| if p.payload.is_empty() { filter_tag(&p.topic) } else { None }),
             rf::Packet::Subscribe(s) => s.subscriptions.first().and_then(|x| filter_tag(&x.filter)),
             rf::Packet::Unsubscribe(u) => u.filters.first().and_then(|x| filter_tag(x)),
             rf::Packet::Pubrel(a) => {
